@@ -35,9 +35,11 @@ def spec_of(root):
     else:
         cells = {}
         for i in range(n):
-            body = " + ".join(["tick()", z, str(1 + 7 * i)] + ["e%d()" % j for j in preds[i]])
+            # "attr2": two references read by attribute path - z by the last element, z2 by the others
+            zi = ("_space.z" if i == n - 1 else "_space.z2") if root.get("zref") == "attr2" else z
+            body = " + ".join(["tick()", zi, str(1 + 7 * i)] + ["e%d()" % j for j in preds[i]])
             cells["e%d" % i] = {"src": "lambda: " + body, "cached": i not in unc}
-        refs = {"z": 0}
+        refs = {"z": 0, "z2": 0} if root.get("zref") == "attr2" else {"z": 0}
     return {"refs": {"tick": "<tick>"}, "spaces": {"S": {"refs": refs, "cells": cells}}}
 
 
@@ -67,6 +69,8 @@ def elem_ops(root):
         ops.append(cl("clear", "S", "v"))
         ops.append(cl("clear_all", "S", "v"))
     ops.append(set_ref("S", "z", 1000))
+    if root.get("zref") == "attr2":
+        ops.append(set_ref("S", "z2", 2000))
     return ops
 
 
@@ -269,6 +273,9 @@ def roots(tier):
                     out.append({"n": n, "edges": edges, "enc": "B", "uncached": [], "recalc": recalc, "zref": "attr"})
                     if not recalc:
                         out.append({"n": n, "edges": edges, "enc": "A", "uncached": [], "recalc": recalc, "zref": "attr"})
+                if n >= 2 and edges and not recalc and any(k == n - 1 for (j, k) in edges):
+                    # two references: a value cleared through one of them must not stay registered with the other
+                    out.append({"n": n, "edges": edges, "enc": "B", "uncached": [], "recalc": False, "zref": "attr2"})
                 if n >= 2 and edges:
                     for u in range(n):
                         # an uncached element is interesting only if it has a dependent
